@@ -237,7 +237,7 @@ PROPS["C30"] = dict(
          "dependent and is not decided.")
 
 PROPS["C25"] = dict(
-    module="c25", func="run", level="other", crates=["emmylua_ls", "emmylua_code_analysis"],
+    module="c25", func="run", level="other", crates=["emmylua_ls", "emmylua_code_analysis", "emmylua_formatter"],
     technique="taint (client-derived offsets) + CFG dominance of a bounds comparison at every rowan API with a range precondition; siblings cross-check",
     text="Decides the precondition-guard clause: every handler that feeds a client-derived offset/range to a rowan API that panics "
          "on out-of-range input first compares it with the document's end (the idiom 12 handler files already use; the deviants "
